@@ -172,6 +172,26 @@ def run(ck, prog, ctx):
             want = {"V3"} if lab == "Orpha" else {"V1", "V2", "V3"}
             ck.ob("DISPATCH", "sections/" + lab, set(got) == want, "the %s section is read for versions %s (expected %s)" % (lab, sorted(got), sorted(want)), where=fb.where())
         ck.floor("DISPATCH", "sections read by from_bytes", len(all_labs), 5)
+        # a section that belongs to the version is mandatory: once the version test has passed, no path reaches the success
+        # value without reading it (a truncated file must not be accepted by skipping the section)
+        succ_blocks = {pos[0] for pos, what, line in success_sites(fb)}
+        site_of = {}
+        for bi, t in fb.calls():
+            lab = codec.section_label(t.callee)
+            if lab:
+                site_of[lab] = bi
+        for lab, rbi in sorted(site_of.items()):
+            starts = [0]
+            for g in guards:
+                for (sbi, tg) in g["edges"]:
+                    if rbi in fb.region((sbi, tg)):
+                        starts = [tg]
+            skipping = False
+            for st0 in starts:
+                reach = fb.reachable_from(st0, avoid_blocks={rbi})
+                if reach & succ_blocks:
+                    skipping = True
+            ck.ob("DOM", "section-mandatory/" + lab, not skipping, "the %s section %s" % (lab, "is read on every path to the success value (for the versions that have it)" if not skipping else "can be SKIPPED on a path to the success value: a file truncated at that section is accepted"), where=fb.where(fb.blocks[rbi].term.line))
     hv = prog.one(r"^ontology::builder::Builder::<T>::hpo_version_from_bytes$")
     if hv is None:
         ck.undecided("DISPATCH", "release-version", "private helper hpo_version_from_bytes not found")
